@@ -378,6 +378,9 @@ func (c *Ctx) exec(fr *frame, in ssa.Instruction) {
 		case ArrayV:
 			i := c.checkIndex(idx, len(xv), in.Pos())
 			fr.env[in] = copyVal(xv[i])
+		case ScalarArr:
+			i := c.checkIndex(idx, len(xv.A.ids), in.Pos())
+			fr.env[in] = xv.A.Load(c, i)
 		case string:
 			i := c.checkIndex(idx, len(xv), in.Pos())
 			fr.env[in] = c.St.BVC(8, uint64(xv[i]))
@@ -522,6 +525,10 @@ func (c *Ctx) indexAddr(fr *frame, in *ssa.IndexAddr) Value {
 		if xv == nil {
 			panic(c.goPanic("nil pointer dereference (array) at %s", c.pos(in.Pos())))
 		}
+		if sa, ok := (*xv).(ScalarArr); ok {
+			i := c.checkIndex(idx, len(sa.A.ids), in.Pos())
+			return ElemRef{B: sa.A, I: i}
+		}
 		arr := (*xv).(ArrayV)
 		i := c.checkIndex(idx, len(arr), in.Pos())
 		return &arr[i]
@@ -570,6 +577,15 @@ func (c *Ctx) sliceOp(fr *frame, in *ssa.Slice) Value {
 	case *Value: // *array
 		if xv == nil {
 			panic(c.goPanic("nil pointer dereference (slice of array) at %s", c.pos(in.Pos())))
+		}
+		if sa, ok := (*xv).(ScalarArr); ok {
+			n := len(sa.A.ids)
+			lo := evalIdx(in.Low, 0, n, "low")
+			hi := evalIdx(in.High, n, n, "high")
+			if lo < 0 || hi < lo || hi > n {
+				panic(c.goPanic("slice bounds out of range [%d:%d] with length %d at %s", lo, hi, n, c.pos(in.Pos())))
+			}
+			return SliceV{B: sa.A, Off: lo, Len: hi - lo, Cap: n - lo}
 		}
 		arr := (*xv).(ArrayV)
 		lo := evalIdx(in.Low, 0, len(arr), "low")
@@ -654,9 +670,14 @@ func (c *Ctx) builtin(name string, args []Value, cc *ssa.CallCommon) Value {
 			return c.St.BVC(64, uint64(len(x.Order)))
 		case ArrayV:
 			return c.St.BVC(64, uint64(len(x)))
+		case ScalarArr:
+			return c.St.BVC(64, uint64(len(x.A.ids)))
 		case *Value:
 			if x == nil {
 				return c.St.BVC(64, 0)
+			}
+			if sa, ok := (*x).(ScalarArr); ok {
+				return c.St.BVC(64, uint64(len(sa.A.ids)))
 			}
 			return c.St.BVC(64, uint64(len((*x).(ArrayV))))
 		case FreshStr:
